@@ -237,7 +237,7 @@ def v1(ctx, n_random, which=("opt",)):
 
 
 # ------------------------------------------------------------ typed vs spec vs pest on the derive corpus
-def analyze(ctx, tier, observable):
+def analyze(ctx, tier, observable, do_t3=True):
     """observable = 'offset' (C01: verdict + consumed offset) or 'tokens' (C02: pair tree).
     T2: impl == faithful model.  T3: impl vs PEG spec (Model/PegSpec.v, itself compared with real pest on every case).
     A T3 failure is a KNOWN finding of class WsNonAtomic iff the faithful model predicts the implementation's output
@@ -322,7 +322,7 @@ def analyze(ctx, tier, observable):
                 atomic_idx = {i + 1 for i, nm in enumerate(g.rules) if g.kinds[nm] in ("atomic", "compound")}
                 t_obs = f["TK"]
                 s_obs = show_toks(prune(parse_toks(gg[gg.index(":") + 1:]), atomic_idx))
-        if t_obs != s_obs:
+        if do_t3 and t_obs != s_obs:
             pending.append((gn, sid, hx, a, rn, t_obs, s_obs))
         elif gv.startswith("ok@") and not gv.startswith("ok@0"):
             ctx.nontrivial.add((sid, hx))
